@@ -65,6 +65,7 @@ def run_case(idx, rng, P, rep):
             ns = dict(c=param.Parameter(default=Tok(), constant=True),
                       cl=param.List(default=[1, 2], constant=True),
                       cr=param.Parameter(default=Tok(), constant=True, allow_refs=True),
+                      cn=param.Parameter(constant=True),        # declared without a default: holds None
                       r=param.Number(default=3, readonly=True),
                       plain=param.Parameter(default=None))
             if rng.random() < 0.5:
@@ -76,7 +77,7 @@ def run_case(idx, rng, P, rep):
                 ns['plain'] = param.Parameter(default=1)
         base = type(f'K{idx}_{d}', (base,), ns)
         classes.append(base)
-    CONST = ['c', 'cl', 'cr', 'name']
+    CONST = ['c', 'cl', 'cr', 'cn', 'name']
     insts = []
     held = []          # per instance: {pname: object}
     touched_foreign = set()   # instances touched while a block on a *different* instance was open
@@ -229,7 +230,7 @@ def run_case(idx, rng, P, rep):
 
     def class_flags(where):
         for K in classes:
-            for p in ('c', 'cl', 'cr', 'name'):
+            for p in ('c', 'cl', 'cr', 'cn', 'name'):
                 if K.param[p].constant is not True:
                     viol('class-flag-not-restored' + (FOREIGN if tainted_cls else ''),
                          f'{where}: {K.__name__}.param.{p}.constant is {K.param[p].constant}')
@@ -268,7 +269,7 @@ def run_case(idx, rng, P, rep):
             elif c < 0.46:
                 kinds.append('class_set')
                 K = rng.choice(classes)
-                p = rng.choice(['c', 'cl', 'cr'])
+                p = rng.choice(['c', 'cl', 'cr', 'cn'])
                 v = new_value(p)
                 trace.append(('class_set', K.__name__, p, repr(v), f'open={open_blocks}'))
                 if open_blocks:
